@@ -200,7 +200,7 @@ func (r *Run) Finish() {
 		cov["known_findings_seen"] = ks
 	}
 	if os.Getenv("VERIF_RACE_RAN") == "1" {
-		rp := map[string]any{"ran": true, "iterations": os.Getenv("VERIF_RACE_ITERS_DONE"), "data_races_reported": false}
+		rp := map[string]any{"ran": true, "iterations": os.Getenv("VERIF_RACE_ITERS_DONE"), "data_races_reported": false, "hit_time_budget": os.Getenv("VERIF_RACE_TIMEOUT") == "1"}
 		if rep := os.Getenv("VERIF_RACE_REPORT"); rep != "" {
 			rp["data_races_reported"] = true
 			rp["report"] = rep
